@@ -100,3 +100,18 @@ def occurrences(prog, r):
 
 def rng_tuple(rg):
     return (rg["start"]["line"], rg["start"]["character"], rg["end"]["line"], rg["end"]["character"])
+
+
+def dead_regions(prog, dead_macros):
+    """Interiors of the bodies of never-invoked macros, as (file, (line, col) after `{`, (line, col) of `}`): what the one-off
+    analysis of such a body binds is not judged. Position based, because a body may share its lines with other statements."""
+    out = []
+    for st in prog.all_stmts():
+        if st.k == "macrodef" and st.bscope.uid in dead_macros and "lbrace" in st.marks and "rbrace" in st.marks:
+            lb, rb = st.marks["lbrace"], st.marks["rbrace"]
+            out.append((lb[0], (lb[3], lb[4]), (rb[1], rb[2])))
+    return out
+
+
+def in_regions(regions, f, line, col):
+    return any(f == rf and a <= (line, col) <= b for rf, a, b in regions)
